@@ -92,6 +92,46 @@ def one_history(chk, sess, L, tag, origin, named):
     chk.count(("h", tag) if nrows > 6 else None, n=sum(1 for b in b2 if b["hdr"] != "restart"))
 
 
+def failed_build_family(chk, sess, n):
+    """Histories containing a cancelled build: executions may legitimately differ between one engine (interrupted rules are flagged
+    and forced) and a restarted one (flags are not persisted), but every later successful build must return the same result in
+    both - and the result a brand-new engine computes."""
+    import props.c05 as c05
+    for i in range(n):
+        rng = random.Random(chk.rng.random())
+        seed = rng.random()
+        sched, cancel = c05.cancel_variants(rng, 1)[0]
+        if sched.startswith("threads"):
+            sched, cancel = "sync", "cancel=cb:%d" % rng.randint(0, 20)
+        L = None
+        for _ in range(20):
+            L = c05.make_history(random.Random(seed), sched, cancel)
+            if L[0] == "db 1":
+                break
+            seed = rng.random()
+        if L is None or L[0] != "db 1":
+            continue
+        base = [l for l in strip_restarts(L)]
+        for variant, lines in (("one", base), ("split", split_variant(base))):
+            r = sess.run(lines, "fb-%s" % variant)
+            if r["rc"] != 0:
+                chk.violation("driver-crash", "engine_driver exited with status %s" % r["rc"], dict(scenario=lines, stderr=r["err"][-1500:]), found_input=True)
+                break
+            builds = [b for b in K.parse_impl(r["out"]) if b["hdr"] != "restart"]
+            for b in builds:
+                val, cancelled = K.result_value(b)
+                if cancelled or b.get("fresh") is None or any(x.startswith("cycle") for x in b["other"]):
+                    continue
+                if val != b["fresh"]:
+                    key = "stale-after-failed-build-" + variant
+                    if c05.window_suspects_in(lines, r["out"]):
+                        key = "discovered-window-" + variant
+                    chk.violation(key, "after a cancelled build, %s: '%s' returned %s, a brand-new engine computes %s" % (
+                        "in one engine" if variant == "one" else "across restarts over the database", b["hdr"], val, b["fresh"]),
+                        dict(scenario=lines, implementation=r["out"]), found_input=True, broken="database transparency after a failed build")
+            chk.count(("fb", i) if any("cancelled" in l for l in r["out"]) else None, n=len(builds))
+
+
 def version_grid(chk, sess):
     """(schema, client) pairs: a database written under other versions is recreated empty or rejected, never interpreted."""
     rules = ["rule 0 sig=0 obs=1", "rule 1 sig=0 obs=0 req=0", "set 0 3"]
@@ -172,6 +212,18 @@ def run(chk):
         one_history(chk, sess, L, "h%d" % (i % 30), "seed=%d index=%d" % (chk.seed, i), named)
         if i < 2:
             chk.sample("\n".join(L[:14])[:900])
+    failed_build_family(chk, sess, chk.n(30, 800))
+    # corpus: the iteration must be persisted by a failed build too (see c05 corpus "iteration-persisted")
+    for n in range(0, 16):
+        L = K.with_fresh(["db 1", "rule 0 sig=0 obs=1", "rule 4 sig=0 obs=0 req=0", "rule 5 sig=0 obs=0 req=4", "rule 7 sig=0 obs=0 req=5", "set 0 1", "build 7", "set 0 2",
+                          "build 7 sched=sync cancel=cb:%d" % n, "restart", "set 0 3", "build 7", "build 5"])
+        r = sess.run(L, "fbc")
+        for b in [b for b in K.parse_impl(r["out"]) if b["hdr"] != "restart"]:
+            val, cancelled = K.result_value(b)
+            if not cancelled and b.get("fresh") is not None and val != b["fresh"]:
+                chk.violation("stale-after-failed-build-split", "after a cancelled build and a restart over the database '%s' returned %s, a brand-new engine computes %s" % (b["hdr"], val, b["fresh"]),
+                              dict(scenario=L, implementation=r["out"]), found_input=True, broken="database transparency after a failed build")
+        chk.count(None, n=4)
     ng = version_grid(chk, sess)
     lock_check(chk, sess)
     sess.close()
